@@ -4,6 +4,6 @@ CONSTANTS
   NReg = 4
   Exhaustive = FALSE
   MaxDepth = 25
-  Focus = {"ashr", "not", "wneg", "rotl", "rotr", "revbits", "invring", "shl", "oshl", "wmul", "omul", "pow", "wto", "sto", "wsub", "osub", "setbit1", "xor", "load", "npow2", "rt_limbs", "via_u64"}
+  Focus = {"ashr", "not", "wneg", "rotl", "rotr", "revbits", "invring", "shl", "oshl", "wmul", "omul", "pow", "wto", "sto", "wsub", "osub", "setbit1", "xor", "load", "npow2", "rt_limbs", "via_u64", "sshl", "wshl", "cshl", "cmul", "cadd", "prod3", "sum3", "redc", "setone", "cpow", "spow", "wpow", "rt_bits", "rt_ssz", "rt_borsh", "rt_scale", "rt_bincode", "msb", "lo", "cz"}
 INVARIANTS Canonical TypeOK EmitHistories
 CHECK_DEADLOCK FALSE
